@@ -50,6 +50,9 @@ class C19(scen.WorldProp):
                 "Wheatley.C19.mutex",
                 "Wheatley.C19.at_most_one_inside",
                 "Wheatley.C19.init_mutex",
+                "Wheatley.C19.run_keeps_disc",
+                "Wheatley.C19.protected_access_by_owner",
+                "Wheatley.C19.handlers_protected_access_by_owner",
                 "Wheatley.C19.rowgen_size_serialisable",
                 "Wheatley.C19.rowgen_lookto_serialisable",
                 "Wheatley.C19.selection_fate",
